@@ -64,10 +64,40 @@ def make_faulty(mode, at=1):
     return faulty
 
 
-def mk_source(kind, plen, off, fault=None):
+_CALLER_DICTS = []   # style dictionaries handed to constructors in label mode: caller data that must stay as it was
+_LABELS = {}         # id(object) -> label given at construction
+_TOP_SRCS = []       # the source objects handed to the top-level call (their labels name the dataframe rows)
+
+
+def _labelled(kw, label, form):
+    """construction keywords extended by a label, as caller dictionary (form 'dict') or underscore keyword (form 'kw')"""
+    if form == "dict":
+        d = {"label": label, "opacity": 0.5}
+        _CALLER_DICTS.append(d)
+        return dict(kw, style=d)
+    return dict(kw, style_label=label)
+
+
+def mk_source(kind, plen, off, fault=None, label=None):
+    import magpylib as magpy
+
+    src = _mk_source(kind, plen, off, fault, label)
+    if label:
+        _LABELS[id(src)] = label
+    return src
+
+
+def _mk_source(kind, plen, off, fault=None, label=None):
     import magpylib as magpy
 
     kw = path(plen, off)
+    if label:
+        kw = _labelled(kw, label, "dict" if int(off) % 4 == 0 else "kw")
+    if kind == "meshU":   # a mesh whose checks were all switched off by the user: its status stays "unchecked"
+        v = [(0, 0, 0), (1, 0, 0), (0, 1, 0), (0, 0, 1)]
+        f = [(0, 2, 1), (0, 1, 3), (0, 3, 2), (1, 2, 3)]
+        return magpy.magnet.TriangularMesh(vertices=v, faces=f, polarization=(0, 0.5, 1), check_open="skip", check_disconnected="skip",
+                                           check_selfintersecting="skip", reorient_faces="skip", **kw)
     dim_none = fault == "dim_none"
     exc_none = fault == "exc_none"
     if kind == "cub":
@@ -95,14 +125,45 @@ def mk_source(kind, plen, off, fault=None):
             return src
         return magpy.misc.CustomSource(field_func=ok_func, **kw)
     if kind == "col":
-        a = magpy.magnet.Sphere(diameter=1, polarization=(1, 0, 0), **path(plen, off + 1))
-        b = magpy.current.Circle(diameter=1, current=1, **path(1, off + 2))
-        return magpy.Collection(a, b, **path(1 if plen == 1 else 2, off))
+        ka, kb, kc = path(plen, off + 1), path(1, off + 2), path(1 if plen == 1 else 2, off)
+        if label:
+            ka, kb, kc = _labelled(ka, label + "-a", "kw"), _labelled(kb, label + "-b", "dict"), _labelled(kc, label, "dict")
+        a = magpy.magnet.Sphere(diameter=1, polarization=(1, 0, 0), **ka)
+        b = magpy.current.Circle(diameter=1, current=1, **kb)
+        if label:
+            _LABELS[id(a)], _LABELS[id(b)] = label + "-a", label + "-b"
+        return magpy.Collection(a, b, **kc)
     raise AssertionError(kind)
 
 
-def mk_observers(kind, plen):
+def mk_observers(kind, plen, label=None):
     """returns (observers argument, list of Sensor/Collection objects involved, caller arrays)"""
+    obs, objs, arrs = _mk_observers(kind, plen)
+    if label:
+        import magpylib as magpy
+
+        # same observers, but every Sensor / Collection was constructed with a (pending, never looked at) label
+        def relabel(o, i):
+            kw = dict(position=o._position.copy(), orientation=o._orientation)
+            lab = f"{label}{i}"
+            if isinstance(o, magpy.Sensor):
+                n = magpy.Sensor(pixel=o.pixel, handedness=o.handedness, **_labelled(kw, lab, "kw" if i % 2 == 0 else "dict"))
+            else:
+                n = magpy.Collection(**_labelled(kw, lab, "dict"))
+            _LABELS[id(n)] = lab
+            return n
+        mapping = {id(o): relabel(o, i) for i, o in enumerate(objs)}
+        for o in objs:
+            if hasattr(o, "_children"):
+                for ch in o._children:
+                    mapping[id(o)].add(mapping[id(ch)])
+        sub = lambda x: mapping.get(id(x), x)
+        obs = [sub(x) for x in obs] if isinstance(obs, list) else sub(obs)
+        objs = [mapping[id(o)] for o in objs]
+    return obs, objs, arrs
+
+
+def _mk_observers(kind, plen):
     import magpylib as magpy
 
     if kind == "arr":
@@ -143,7 +204,8 @@ def mk_observers(kind, plen):
 
 # ------------------------------------------------------------------ snapshot
 GEO_ATTRS = ("dimension", "diameter", "vertices", "faces", "mesh", "polarization", "magnetization", "current",
-             "moment", "pixel", "handedness")
+             "moment", "pixel", "handedness", "status_open", "status_open_data", "status_disconnected", "status_disconnected_data",
+             "status_selfintersecting", "status_selfintersecting_data", "status_reoriented")
 
 
 def all_objects(objs):
@@ -168,6 +230,22 @@ def arr_sig(a):
     return (a.dtype.str, a.shape, a.tobytes())
 
 
+def tree_sig(st):
+    """signature of a style / defaults tree read from the instance dictionaries (as_dict() enumerates dir() at every node, which
+    dominated the cost of a case); equal trees <=> equal as_dict() because every leaf is stored as '_<name>' on its node"""
+    out = []
+    for k, v in sorted(vars(st).items()):
+        if hasattr(v, "as_dict") and hasattr(v, "update"):
+            out.append((k, tree_sig(v)))
+        elif isinstance(v, (list, tuple)) and any(hasattr(x, "as_dict") for x in v):
+            out.append((k, tuple(tree_sig(x) if hasattr(x, "as_dict") else repr(x) for x in v)))
+        elif isinstance(v, np.ndarray):
+            out.append((k, arr_sig(v)))
+        else:
+            out.append((k, repr(v)))
+    return tuple(out)
+
+
 def snapshot(objs, with_style=True):
     names = {id(o): i for i, o in enumerate(objs)}
     snap = []
@@ -187,8 +265,20 @@ def snapshot(objs, with_style=True):
                 d[a] = [names.get(id(c), "ext") for c in getattr(o, a)]
         if hasattr(o, "_field_func"):
             d["field_func"] = id(o._field_func)
-        if with_style:
-            d["style"] = json.dumps(o.style.as_dict(), sort_keys=True, default=repr)
+        if with_style == "lazy":
+            # do not look at .style (that would create it and consume the pending keywords): the effective own style is computed
+            # on the side - a copy of the style object if there is one, else a new one, with the pending keywords applied.
+            # Lazy creation of the style object by the library is thereby not a change; losing or altering a pending value is.
+            import copy as _copy
+
+            st = _copy.deepcopy(getattr(o, "_style", None))
+            if st is None:
+                st = o._style_class()
+            if o._style_kwargs:
+                st.update(_copy.deepcopy(o._style_kwargs))
+            d["style_effective"] = tree_sig(st)
+        elif with_style:
+            d["style"] = tree_sig(o.style)
             d["style_kwargs"] = json.dumps(o._style_kwargs, sort_keys=True, default=repr)
         snap.append(d)
     return snap
@@ -207,13 +297,16 @@ def caller_sig(arrs):
 def defaults_sig():
     import magpylib as magpy
 
-    return json.dumps(magpy.defaults.as_dict(), sort_keys=True, default=repr)
+    return tree_sig(magpy.defaults)
 
 
 # ------------------------------------------------------------------ one case
 def build_case(case):
     """returns (callable performing the field call, involved objects, caller arrays)"""
     import magpylib as magpy
+
+    del _CALLER_DICTS[:]
+    _LABELS.clear()
 
     fault = case["fault"]
     srcs = []
@@ -226,10 +319,12 @@ def build_case(case):
             ncus += 1
             if ncus == case.get("fault_at", 1):
                 f = fault
-        srcs.append(mk_source(kind, plen, 2.0 * i, f))
+        srcs.append(mk_source(kind, plen, 2.0 * i, f, label=f"SRC{i}" if case.get("lazy") else None))
     if case.get("dup"):
         srcs.append(srcs[0])
-    obs, obs_objs, arrs = mk_observers(case["obs"], case["obs_plen"])
+    obs, obs_objs, arrs = mk_observers(case["obs"], case["obs_plen"], label="SENS" if case.get("lazy") else None)
+    if case.get("lazy"):
+        arrs = list(arrs) + list(_CALLER_DICTS)
     kw = {}
     if fault == "agg_bad":
         kw["pixel_agg"] = "nonexistent_function"
@@ -281,10 +376,11 @@ def build_case(case):
     else:
         raise AssertionError(entry)
     involved = all_objects([s for s in srcs if not isinstance(s, str)] + obs_objs)
+    _TOP_SRCS[:] = [coll] if entry == "coll" else [s for s in srcs if not isinstance(s, str)]
     return call, involved, arrs
 
 
-def result_sig(r):
+def result_sig(r, labels=False):
     if isinstance(r, np.ndarray):
         return ("ndarray", r.shape, r.tobytes())
     try:
@@ -293,6 +389,11 @@ def result_sig(r):
         if isinstance(r, pd.DataFrame):
             # source/sensor columns hold reprs with id() of temporaries: compare structure and numbers
             num = r.select_dtypes("number")
+            if labels:   # all objects were labelled at construction: the source / sensor columns are stable texts
+                import re
+
+                norm = lambda col: tuple(re.sub(r"id=\d+", "id=#", str(x)) for x in col)   # temporaries show their id()
+                return ("df", tuple(r.columns), r.shape, num.to_numpy(dtype=float).tobytes(), norm(r["source"]), norm(r["sensor"]))
             return ("df", tuple(r.columns), r.shape, num.to_numpy(dtype=float).tobytes())
     except Exception:
         pass
@@ -311,23 +412,35 @@ def diff_snap(a, b):
     return out
 
 
+def _warn_sig(rec):
+    import re
+
+    return sorted((w.category.__name__, re.sub(r"id=\d+", "id=#", str(w.message))[:200]) for w in rec)
+
+
 def run_case(case, inject_k=None):
     """returns dict(outcome, problems[], ncalls)"""
+    import warnings
+
     call, involved, arrs = build_case(case)
-    # materialise styles first so the snapshot itself is not the first access
-    before = snapshot(involved)
+    # default: materialise styles first so the snapshot itself is not the first access; lazy: never look at .style before the
+    # calls (objects carry pending style keywords - labels - that the computation must leave pending and unconsumed)
+    mode = "lazy" if case.get("lazy") else True
+    before = snapshot(involved, mode)
     cbefore = caller_sig(arrs)
     dbefore = defaults_sig()
     problems = []
     ncalls = None
     try:
-        if inject_k is None:
-            with common.time_limit(60):
-                r = call()
-        else:
-            r, ncalls = traced_call(call, inject_k)
+        with warnings.catch_warnings(record=True) as rec1:
+            warnings.simplefilter("always")
+            if inject_k is None:
+                with common.time_limit(60):
+                    r = call()
+            else:
+                r, ncalls = traced_call(call, inject_k)
         outcome = "ok"
-        sig1 = result_sig(r)
+        sig1 = result_sig(r, labels=bool(case.get("lazy")))
     except common.CaseTimeout:
         return {"outcome": "timeout", "problems": ["timeout"], "ncalls": None}
     except InjectedFault:
@@ -336,7 +449,7 @@ def run_case(case, inject_k=None):
     except BaseException as e:
         outcome = type(e).__name__
         sig1 = None
-    after = snapshot(involved)
+    after = snapshot(involved, mode)
     d = diff_snap(before, after)
     if d:
         problems.append("objects changed: " + ",".join(d[:6]))
@@ -351,14 +464,36 @@ def run_case(case, inject_k=None):
             if hasattr(ff, "state"):
                 ff.state["n"] = 0
         try:
-            r2 = call()
-            out2, sig2 = "ok", result_sig(r2)
+            with warnings.catch_warnings(record=True) as rec2:
+                warnings.simplefilter("always")
+                r2 = call()
+            out2, sig2 = "ok", result_sig(r2, labels=bool(case.get("lazy")))
         except BaseException as e:
             out2, sig2 = type(e).__name__, None
         if out2 != outcome or sig2 != sig1:
             problems.append(f"second call differs: {outcome} -> {out2}")
-        if diff_snap(before, snapshot(involved)):
+        elif outcome == "ok" and _warn_sig(rec1) != _warn_sig(rec2):
+            problems.append(f"second call warns differently: {_warn_sig(rec1)[:2]} -> {_warn_sig(rec2)[:2]}")
+        if diff_snap(before, snapshot(involved, mode)):
             problems.append("objects changed by second call")
+    if not problems and case.get("lazy"):
+        # now look: every object still has the label it was constructed with, in the result table and in its style
+        for o in involved:
+            lab = _LABELS.get(id(o))
+            if lab is not None and o.style.label != lab:
+                problems.append(f"label lost: {type(o).__name__} constructed with label {lab!r} has style.label={o.style.label!r} after the field calls")
+                break
+        if not problems and outcome == "ok" and sig1[0] == "df":
+            import magpylib as magpy
+
+            for o in involved:
+                lab = _LABELS.get(id(o))
+                if lab is None:
+                    continue
+                col = 5 if isinstance(o, magpy.Sensor) else 4 if any(o is t for t in _TOP_SRCS) else None
+                if col is not None and lab not in sig1[col]:
+                    problems.append(f"dataframe does not show the label given at construction: {type(o).__name__} {lab!r} missing in the {'sensor' if col == 5 else 'source'} column")
+                    break
     if not problems:
         problems += probe_futures(case, involved, arrs, r if outcome == "ok" else None)
     return {"outcome": outcome, "problems": problems, "ncalls": ncalls}
@@ -505,6 +640,8 @@ def enumerate_cases(tier):
         for ks in itertools.product(pool, repeat=n):
             for pl in itertools.product(plens, repeat=n):
                 lists.append(list(zip(ks, pl)))
+    # the unchecked mesh alone and next to another source
+    lists += [[("meshU", pl)] for pl in plens] + [[("meshU", 1), ("cub", plens[-1])], [("tet", 1), ("meshU", plens[-1])], [("meshU", 1), ("meshU", 1)]]
     if tier == "quick":  # intermediate path lengths (1 < own length < longest) also in the quick tier
         lists += [[(k, 2)] for k in kinds] + [[(k, 2), ("cub", 3)] for k in ("cub", "col", "cus")]
     for srcs in lists:
@@ -545,6 +682,8 @@ def enumerate_cases(tier):
                                 if fa is not None:
                                     c["fault_at"] = fa
                                 cases.append(c)
+                                if field == "B" and (fault == "output_df" or (fault == "none" and (len(srcs) == 1 or tier != "quick"))) and len(srcs) < 3:
+                                    cases.append(dict(c, lazy=True))
                                 if fault == "none" and field == "B" and entry == "top":
                                     cases.append(dict(c, squeeze=False, sumup=True))
                                     cases.append(dict(c, dup=True))
